@@ -124,6 +124,15 @@ def run(chk, prog):
     for i in r:
         chk.check(i["ok"], "R4", i["site"], "(C03/%s) %s" % (i["rule"], i["what"].split("\n")[0][:220]), "C03-%s:%s" % (i["rule"], i.get("key", "ok")))
     chk.floor("R4-rf-drift-conditions", len(r), 8)
+    # the wake kick of bunch n is the one computed from bunch n's wake potential only if the y-kick reader of KickMap::apply uses
+    # the rows the wake map wrote for that bunch, with the writer's stride: decided under C08 (R1 reader/writer, R2 rows per class)
+    sub8 = type(chk)("C08", chk.tier)
+    c08.run(sub8, prog)
+    r8 = [i for i in sub8.instances if (i["rule"] == "R1" and ("reader" in i["what"] or "writer" in i["what"])) or (i["rule"] == "R2" and "WakePotentialMap" in i["what"])
+          or (i["rule"] == "R4" and "wake" in i["what"])]
+    for i in r8:
+        chk.check(i["ok"], "R3", i["site"], "(C08/%s) %s" % (i["rule"], i["what"].split("\n")[0][:220]), "C08-%s:%s" % (i["rule"], i.get("key", "ok")))
+    chk.floor("R3-wake-kick-rows", len(r8), 10)
     for key_ in list(mm.eff.memo):
         chk.functions.add(key_[0])
     chk.notes.append("C05: step order and grid chaining from the constructor bindings, freshness of the wake offsets at the kick, copy-without-arithmetic. "
